@@ -1,5 +1,6 @@
 import HapModel.Drv.Basic
 import HapModel.Model.GenoIO
+import HapModel.Model.PgenMatrix
 import HapModel.Model.Subset
 namespace Drv
 open Lean GenoIO
@@ -10,12 +11,25 @@ def gcell (j : Json) : R Cell := do
   | _ => throw "cell"
 def jGCell (c : Cell) : Json := jArr [jNat c.a, jNat c.b, jNat (if c.ph then 1 else 0)]
 
-/-- {"op":"gtStore","fmt":"vcf"|"pgen","data":[[[a,b,ph]…]…]} → the matrix a reader must return -/
+/-- {"op":"gtStore","fmt":"vcf"|"pgen","data":[[[a,b,ph]…]…],"nv":n,"wchunk":null|k,"rchunk":null|k} → the matrix a reader
+    must return; for PGEN the matrix goes through the chunked writer and the chunked reader of `PgenMatrix` with the chunk
+    sizes the code computes from the requested ones -/
 def hGtStore (j : Json) : R Json := do
   let fmt ← strF j "fmt"
   let data ← listF (listOf gcell) j "data"
-  let f : Cell → Cell := if fmt = "pgen" then pgenStore else (fun c => decodeVcf (encodeVcf c))
-  pure <| jObj [("data", jArr (data.map (fun r => jArr (r.map (fun c => jGCell (f c))))))]
+  if fmt = "pgen" then
+    let nv := (← optF nat j "nv").getD ((data.head?.map List.length).getD 0)
+    let kw := Chunks.chunkSize (← optF nat j "wchunk") nv
+    let kr := Chunks.chunkSize (← optF nat j "rchunk") nv
+    if hw : 0 < kw then
+      if hr : 0 < kr then
+        let out := PgenMatrix.read kr hr (PgenMatrix.write kw hw data nv) data.length nv
+        pure <| jObj [("data", jArr (out.map (fun r => jArr (r.map jGCell))))]
+      else throw "read chunk size 0"
+    else throw "write chunk size 0"
+  else
+    let f : Cell → Cell := fun c => decodeVcf (encodeVcf c)
+    pure <| jObj [("data", jArr (data.map (fun r => jArr (r.map (fun c => jGCell (f c))))))]
 
 /-- {"op":"gtRestrict","samples":[…],"variants":[[id,chrom,pos]…],"region":null|[chrom,lo|null,hi|null],
      "req_samples":null|[…],"ids":null|[…],"max":null|n} → kept row / column indices -/
